@@ -15,7 +15,7 @@ _BYTES_CMP = {h: "byte/string keys of lengths (%s)" % h[len("u8_bytes_cmp_"):].r
 _HASH_STR = {"u9_hash_value_string_len_%d" % n: "string/bytes key of length %d" % n for n in (0, 1, 7, 8, 9, 16, 17)}
 # property -> kani harnesses (complete = loop-free / unwinding-asserted full-domain proofs; bounded = stated bound)
 KANI = {
-    "C01": {"complete": _KEYTRAIT + _VU64 + _ROUNDUP, "bounded": dict(_BYTES_CMP)},
+    "C01": {"complete": _KEYTRAIT + _VU64 + _ROUNDUP, "bounded": dict(_BYTES_CMP, c01_front_end_calls_are_their_kt_counterparts="generic front-end get/put/delete/includes_key/is_empty on an array-backed map of <= 2 entries, one-byte keys and values")},
     "C05": {"complete": _ROUNDUP + _VU64, "bounded": {}},
     "C06": {"complete": _ROUNDUP + ["u3_free_list_head_offset", "u3_slot_walk_one_step"], "bounded": {}},
     "C07": {"complete": ["u6_capacity_to_buckets_size", "u6_capacity_zero_is_refused"], "bounded": {}},
@@ -29,9 +29,10 @@ KANI = {
                                          "c14_bulk_delete_is_elementwise_batch_2_distinct": "map <= 1 entry, batch of 2 distinct one-byte keys",
                                          "c14_bulk_put_is_elementwise_batch_2_distinct": "map <= 1 entry, batch of 2 distinct one-byte keys, one-byte values",
                                          "c14_put_from_iter_applies_in_order_batch_2": "map <= 1 entry, 2 pairs",
+                                         "c01_front_end_calls_are_their_kt_counterparts": "generic front-end get/put/delete/includes_key/is_empty, map <= 2 entries, one-byte keys and values",
                                          "c14_bulk_get_is_elementwise_batch_3": "map <= 2 entries, batch of 3 one-byte keys (every order, repeats allowed)",
                                          "c14_bulk_delete_is_elementwise_batch_3_distinct": "map <= 2 entries, batch of 3 distinct one-byte keys (every order)"}},
-    "C17": {"complete": ["u3_free_list_head_offset", "u3_slot_walk_one_step"], "bounded": {"c17_touch_size_counts_each_touch_bounded_3": "3 touches, sizes <= 4",
+    "C17": {"complete": ["u3_free_list_head_offset", "u3_slot_walk_one_step"], "bounded": {"c17_touch_size_counts_each_touch_bounded_3": "3 touches, sizes <= 4 (counts, one bucket per size, ascending order)",
                                                                                        "c17_touch_length_counts_each_touch_bounded_3": "3 touches, lengths <= 4"}},
     "C18": {"complete": ["u9_xorshift_is_documented_mixer", "u9_hasher_one_chunk"], "bounded": {}},
 }
